@@ -60,9 +60,22 @@ pub fn arb_case() -> impl Strategy<Value = Case> {
         arb_rate_exp(),
         prop::collection::vec(any::<u64>(), 0..3),
         prop::bool::weighted(0.5),
+        prop::collection::vec(
+            prop::option::weighted(0.35, (crate::emfgen::arb_defect(), any::<u32>(), any::<u32>())),
+            3,
+        ),
     )
-        .prop_map(|((cfg, mut entries), rate_exp, words, warm)| {
+        .prop_map(|((cfg, mut entries), rate_exp, words, warm, defects)| {
             let entry = entries.pop().unwrap();
+            // some warm-up entries carry an injected validation defect: a rejected entry must
+            // leave nothing behind in the formatter either
+            for (e, d) in entries.iter_mut().zip(defects) {
+                if let Some((d, s, p)) = d {
+                    if let Some(e2) = crate::emfgen::inject(&cfg, e, d, s, p) {
+                        *e = e2;
+                    }
+                }
+            }
             Case {
                 cfg,
                 warmup: if warm { entries } else { vec![] },
@@ -79,9 +92,11 @@ pub fn check(case: &Case) -> CaseResult {
     let log = record(&prepared);
     let mut out: Vec<u8> = vec![];
     let mut emf = no_panic("emf-build", || case.cfg.build())?;
+    let mut warm_rejected = false;
     for w in &case.warmup {
         let mut sink: Vec<u8> = vec![];
-        let _ = no_panic("emf-format-warmup", || format_once(&mut emf, w, &Sampling::None, &mut sink))?;
+        let d = no_panic("emf-format-warmup", || format_once(&mut emf, w, &Sampling::None, &mut sink))?;
+        warm_rejected |= matches!(d, Decision::Validation(_));
     }
     let dec = no_panic("emf-format", || {
         format_once(&mut emf, &case.entry, &sampling, &mut out)
@@ -150,6 +165,9 @@ pub fn check(case: &Case) -> CaseResult {
     // classification
     let mut classes: Classes = vec![];
     let mut feats = 0;
+    if warm_rejected {
+        classes.push("warm-formatter-rejected-an-entry");
+    }
     if !case.warmup.is_empty() {
         classes.push("warm-formatter");
     }
@@ -309,7 +327,7 @@ fn check_missing_timestamp(ctx: &mut Ctx) {
     ctx.push_custom(t.finish(&[]));
 }
 
-pub const RULE: &str = "valid-by-construction entries (unique names per record, declared dimensions written as strings, split/entry-dimension config before the first dimensioned metric, one timestamp; arbitrary Unicode in every name and string; 0-5 observations incl. NaN/inf/zero-occurrence; all units; flags; 0-3 distinct per-metric dimension sets presented in rotated key order) on a fresh formatter or on one that has already formatted 1-2 other valid entries of the same configuration (warm formatter) x configurations (5 constructors, 1-3 namespaces, 1-3 default dimension sets, entry dimensions, extra directives, log group, ignored-dimension mode) x sampling weight (none, 2^k for k<=52, saturated). Oracle: parsed output as a multiset of records == independent reference interpretation RefEmf of the recorded call sequence; RecLog cross-checked against to_test_entry. Non-trivial = >=2 of {multi-namespace, >=2 split records, entry dimensions, integer > 2^53, non-finite observation, sampling}";
+pub const RULE: &str = "valid-by-construction entries (unique names per record, declared dimensions written as strings, split/entry-dimension config before the first dimensioned metric, one timestamp; arbitrary Unicode in every name and string; 0-5 observations incl. NaN/inf/zero-occurrence; all units; flags; 0-3 distinct per-metric dimension sets presented in rotated key order) on a fresh formatter or on one that has already formatted 1-2 other entries of the same configuration, valid ones or (35%) ones with an injected validation defect that the formatter rejects (warm formatter) x configurations (5 constructors, 1-3 namespaces, 1-3 default dimension sets, entry dimensions, extra directives, log group, ignored-dimension mode) x sampling weight (none, 2^k for k<=52, saturated). Oracle: parsed output as a multiset of records == independent reference interpretation RefEmf of the recorded call sequence; RecLog cross-checked against to_test_entry. Non-trivial = >=2 of {multi-namespace, >=2 split records, entry dimensions, integer > 2^53, non-finite observation, sampling}";
 
 pub fn run(ctx: &mut Ctx) {
     ctx.assume("RefEmf encodes the documented meaning of an entry (emf.rs docs + in-tree expected outputs); float lexemes are compared after correctly rounded parsing, integers by lexeme");
@@ -334,6 +352,7 @@ pub fn run(ctx: &mut Ctx) {
                 "log-group",
                 "saturating-weight",
                 "warm-formatter",
+                "warm-formatter-rejected-an-entry",
             ]),
         arb_case,
         check,
